@@ -1,5 +1,6 @@
 """C04 — every pseudo-random mask is fresh (structural clauses)."""
 from ..flow import Flow, field_name
+from .common import copy_helpers, is_add_call
 from ..facts import callee_name
 from .. import cfg as C
 from .. import vcai as V
@@ -79,6 +80,33 @@ def run(facts, rep, tier):
     dangling(facts, rep, vs, vidx, tb)
 
 
+def _is_map_get(c):
+    return bool(c) and c.startswith("std::collections::HashMap") and c.endswith("::get")
+
+
+def _signature_lookups(facts, it, res, dd):
+    """executable look-ups of the signature table: HashMap::get called directly, or inside a closure handed to an Option
+    combinator (`key.as_ref().and_then(|k| table.get(k))`) whose receiver is not certainly None"""
+    out = [b for b, c in res.reachable_calls() if _is_map_get(c)]
+    for b, c in res.reachable_calls():
+        if not c or not c.startswith("std::option::Option") or not c.endswith(("::and_then", "::map", "::map_or", "::map_or_else",
+                                                                                "::is_some_and", "::filter", "::inspect")):
+            continue
+        t = dd.term(b)
+        recv = it.eval_operand(res.env, t["args"][0])
+        if recv not in (V.TOP, V.BOT) and recv[0] == "enum" and recv[3] == "None":
+            continue
+        for a in t["args"][1:]:
+            if a[0] == "k":
+                continue
+            cname = dd.local_ty(a[1][0])
+            for cb in facts.closures_of(dd.id):
+                if any(_is_map_get(callee_name(ct)) for _, ct in cb.calls()) and \
+                        ("closure@%s:%d:" % (cb.file, cb.line)) in cname:
+                    out.append(b)
+    return out
+
+
 def fold_and_merge_guards(facts, rep, tb, vidx, prot):
     """C04.F / C04.D for the given protected variants (shared with C06 for the variants whose evaluation draws randomness)"""
     # ---------------------------------------------------------------- C04.F
@@ -96,7 +124,7 @@ def fold_and_merge_guards(facts, rep, tb, vidx, prot):
             res = it.run(co)
             calls = res.reachable_calls()
             folds = [c for b, c in calls if c and c.endswith("Evaluator::evaluate_node")]
-            keeps = [c for b, c in calls if c and c.endswith("Graph::add_node_with_type")]
+            keeps = [c for b, c in calls if c and (c.endswith("Graph::add_node_with_type") or c in copy_helpers(facts))]
             rep.ob("C04.F", "optimize_graph_constants|%s" % name, not folds and bool(keeps),
                    "under Operation::%s the folding call evaluate_node is %s and add_node_with_type is %s"
                    % (name, "REACHABLE" if folds else "unreachable", "reached" if keeps else "NOT reached"), co.loc())
@@ -133,30 +161,96 @@ def fold_and_merge_guards(facts, rep, tb, vidx, prot):
             it = V.Interp(facts, vidx[name], call_models={"optimizer::duplicates_optimizer::NodeKey::new": nodekey_model})
             res = it.run(dd)
             calls = res.reachable_calls()
-            lookups = [c for b, c in calls if c and c.startswith("std::collections::HashMap") and c.endswith("::get")]
-            keeps = [c for b, c in calls if c and c.endswith("Graph::add_node_with_type")]
+            lookups = _signature_lookups(facts, it, res, dd)
+            keeps = [c for b, c in calls if c and (c.endswith("Graph::add_node_with_type") or c in copy_helpers(facts))]
             rep.ob("C04.D", "optimize_graph_duplicates|%s" % name, not lookups and bool(keeps),
                    "under Operation::%s the signature lookup is %s and add_node_with_type is %s"
                    % (name, "REACHABLE" if lookups else "unreachable", "reached" if keeps else "NOT reached"), dd.loc())
         it = V.Interp(facts, vidx["Add"], call_models={"optimizer::duplicates_optimizer::NodeKey::new": nodekey_model})
         res = it.run(dd)
         rep.ob("C04.D", "optimize_graph_duplicates|positive:Add",
-               any(c and c.startswith("std::collections::HashMap") and c.endswith("::get") for b, c in res.reachable_calls()),
+               bool(_signature_lookups(facts, it, res, dd)),
                "positive control: under Operation::Add the signature lookup is reachable", dd.loc())
 
 
 # -------------------------------------------------------------------- C04.U
+def _closure_counter(facts, rep, u, fl, cb, ub, loops):
+    """counter discipline when the renumbering lives in a closure that captures the counter by &mut:
+    the parent owns the counter (one constant initialisation outside the loops, no other write), the closure's writes to the
+    captured counter are `+= 1` only, an increment dominates update_prf_id, and the closure is called inside the node loop"""
+    cfl = Flow(facts, cb)
+    t = cb.term(ub)
+    idop = t["args"][1]
+    ups = {o[1] for o in cfl.origins(idop, (ub, None)) if o[0] == "upvar"} if idop[0] != "k" else set()
+    if idop[0] == "k" or len(ups) != 1 or any(o[0] not in ("upvar", "bin") for o in cfl.origins(idop, (ub, None))):
+        rep.fail("C04.U", "counter", "update_prf_id inside a closure is not given a captured counter", cb.loc(ub))
+        return
+    k = ups.pop()
+
+    def is_up(place_local, at):
+        return any(o[0] == "upvar" and o[1] == k for o in cfl.origins(["c", [place_local]], at))
+    incs, others = [], []
+    for bb, j, place, rv in cb.assigns():
+        if cb.is_cleanup(bb) or len(place) != 2 or place[1] != "*" or not is_up(place[0], (bb, j)):
+            continue
+        good = False
+        if rv[0] == "use" and rv[1][0] != "k" and len(rv[1][1]) == 2:
+            tds = cfl.defs_of.get(rv[1][1][0], [])
+            if len(tds) == 1:
+                _, tb_, tj = cfl.defs[tds[0]]
+                if tj is not None:
+                    trv = cb.stmts(tb_)[tj][2]
+                    if trv[0] == "bin" and trv[1] in ("AddWithOverflow", "Add", "AddUnchecked") and trv[3][0] == "k" and trv[3][4] == "1" \
+                            and trv[2][0] != "k" and len(trv[2][1]) == 2 and trv[2][1][1] == "*" and is_up(trv[2][1][0], (tb_, tj)):
+                        good = True
+        (incs if good else others).append(bb)
+    site = [(bb, j, rv) for bb, j, place, rv in u.assigns() if rv[0] == "agg" and rv[1].get("k") == "closure" and rv[1].get("def") == cb.id]
+    ctr = None
+    if len(site) == 1 and k < len(site[0][2][2]) and site[0][2][2][k][0] != "k":
+        ctr = fl.root_of(site[0][2][2][k][1][0])
+    if ctr is None:
+        rep.fail("C04.U", "counter", "the counter captured by the renumbering closure could not be located", cb.loc(ub))
+        return
+    name = u.var_name(ctr) or ("_%d" % ctr)
+    inits, pothers = [], []
+    for di in fl.defs_of.get(ctr, []):
+        l, bb, j = fl.defs[di]
+        if bb >= 0 and j is not None and u.stmts(bb)[j][2][0] == "use" and u.stmts(bb)[j][2][1][0] == "k":
+            inits.append(bb)
+        else:
+            pothers.append(bb)
+    in_loop = lambda bb: any(bb in blocks for _, blocks in loops)
+    rep.ob("C04.U", "counter|single-init", len(inits) == 1 and not in_loop(inits[0]),
+           "counter `%s` (captured by the renumbering closure) has %d constant initialisation(s) outside the loops" % (name, len(inits)),
+           u.loc(inits[0]) if inits else u.loc())
+    rep.ob("C04.U", "counter|only-increments", not others and not pothers and len(incs) >= 1,
+           "all other writes of `%s` are `+= 1` inside the closure (%d increment(s); other writes: closure %s, function %s)" % (
+               name, len(incs), others, pothers), cb.loc())
+    ok = any(C.dominates(cb, i, ub) for i in incs)
+    calls_in_loop = [bb for bb, t2 in u.calls() if callee_name(t2) == cb.id and in_loop(bb) and not u.is_cleanup(bb)]
+    rep.ob("C04.U", "counter|increment-dominates-use", ok and bool(calls_in_loop),
+           "inside the renumbering closure an increment of `%s` dominates update_prf_id, and the closure is called in the node loop" % name
+           if ok and calls_in_loop else
+           "no increment of `%s` dominates update_prf_id in the renumbering closure (or it is not called per node): two PRF nodes can "
+           "receive the same counter" % name, cb.loc(ub))
+    rep.ob("C04.U", "counter|id-operand", True, "the id operand of update_prf_id is the captured counter `%s`" % name, cb.loc(ub))
+
+
 def uniquify(facts, rep, tb, vs, vidx):
     u = facts.body("mpc::mpc_compiler::uniquify_prf_id")
     if not rep.anchor("C04.U", "mpc::mpc_compiler::uniquify_prf_id", u):
         return
     fl = Flow(facts, u)
     upd = [bb for bb, t in u.calls() if callee_name(t) == "graphs::Operation::update_prf_id"]
+    cl_upd = [(cb, bb) for cb in facts.closures_of(u.id) for bb, t in cb.calls()
+              if callee_name(t) == "graphs::Operation::update_prf_id" and not cb.is_cleanup(bb)]
     adds = [bb for bb, t in u.calls() if callee_name(t) == "graphs::Graph::add_node_with_type"]
-    if not (rep.anchor("C04.U", "update_prf_id call in uniquify_prf_id", upd)
+    if not (rep.anchor("C04.U", "update_prf_id call in uniquify_prf_id", upd or cl_upd)
             and rep.anchor("C04.U", "add_node_with_type call in uniquify_prf_id", adds)):
         return
     loops = C.loops(u)
+    for cb, cbb in cl_upd:
+        _closure_counter(facts, rep, u, fl, cb, cbb, loops)
     def innermost(bb):
         best = None
         for h, blocks in loops:
@@ -228,6 +322,10 @@ def uniquify(facts, rep, tb, vs, vidx):
                 continue
             opv = it.eval_operand(res.env, u.term(ab)["args"][3])
             upd_exec = any(b in res.blocks for b in upd)
+            for cb, cbb in cl_upd:
+                if any(callee_name(u.term(x)) == cb.id for x in res.blocks if u.term(x)["k"] == "call"):
+                    rc = V.Interp(facts, idx).run(cb, {2: V.SUBJ})
+                    upd_exec = upd_exec or cbb in rc.blocks
             if name in prf:
                 ok = upd_exec and opv[0] == "enum" and opv[1] == V.OPERATION and opv[3] == name
                 msg = "PRF variant %s: node is re-created with %s (update_prf_id %s)" % (
@@ -417,7 +515,7 @@ def dangling(facts, rep, vs, vidx, tb):
     if not rep.anchor("C04.X", "optimize_graph_dangling_nodes", d):
         return
     fl = Flow(facts, d)
-    adds = [bb for bb, t in d.calls() if callee_name(t) == "graphs::Graph::add_node_with_type"]
+    adds = [bb for bb, t in d.calls() if is_add_call(facts, t)]
     if not rep.anchor("C04.X", "add_node_with_type in dangling pass", adds):
         return
     # under "useful_nodes.contains(node) == true" every iteration reaches add_node_with_type or an error exit
@@ -431,9 +529,17 @@ def dangling(facts, rep, vs, vidx, tb):
         return
     h, blocks = lp
     in_loop_contains = [c for c in contains if c in blocks]
-    rep.ob("C04.X", "skip-guard", bool(in_loop_contains),
-           "the node loop consults useful_nodes.contains (%d site(s))" % len(in_loop_contains), d.loc(h))
-    res_c = V.executable_under(facts, d, site_values={(d.id, c): ("b", True) for c in in_loop_contains})
+    sites = {(d.id, c): ("b", True) for c in in_loop_contains}
+    # the guard may live in a predicate helper called from the loop (`fn must_keep_node(..) -> bool`)
+    for bb, t in d.calls():
+        hb = facts.bodies.get(callee_name(t) or "")
+        if bb in blocks and hb is not None and hb.kind != "closure" and hb.local_ty(0) == "bool":
+            for hbb, ht in hb.calls():
+                if (callee_name(ht) or "").endswith("::contains") and not hb.is_cleanup(hbb):
+                    sites[(hb.id, hbb)] = ("b", True)
+    rep.ob("C04.X", "skip-guard", bool(sites),
+           "the node loop consults useful_nodes.contains (%d site(s), helpers included)" % len(sites), d.loc(h))
+    res_c = V.executable_under(facts, d, site_values=sites)
     rem = {(x, y) for x, y in C.edges(d) if (x, y) not in res_c.edges}
     # back edges = edges into header from inside the loop
     errs = C.error_exit_blocks(d)
